@@ -126,7 +126,7 @@ def check_C17(run):
                         nontrivial=nt, classify=io_classify("C17"), shards=16)
     # the bridge subprocess: the Connection's own stream over the child's stdio pipes, obtained through Upgrade
     bl = [x for x in sel if '"op":"PC"' not in x]
-    bl = bl if thorough else run.rng.sample(bl, min(len(bl), 48))
+    bl = run.rng.sample(bl, min(len(bl), 480 if thorough else 48))
     replay_validate(run, bl, ["ctxio", "-transport", "bridge"], "CtxIOTrace", io_trace_cfg(), "C17 cancellation / deadlines over a bridge subprocess",
                     nontrivial=nt, classify=io_classify("C17"), shards=16)
     run.write_evidence("model_checking",
